@@ -42,6 +42,16 @@ func DecodeBody(body hcl.Body, bodySchema *schema.BodySchema) BodyContent {
 	// and blocks are otherwise ambiguous
 	if bodySchema != nil {
 		hclSchema := bodySchema.ToHCLSchema()
+		// count and for_each are not part of the declared attributes
+		// but are valid wherever the respective extension is enabled
+		if bodySchema.Extensions != nil {
+			if _, ok := bodySchema.Attributes["count"]; !ok && bodySchema.Extensions.Count {
+				hclSchema.Attributes = append(hclSchema.Attributes, hcl.AttributeSchema{Name: "count"})
+			}
+			if _, ok := bodySchema.Attributes["for_each"]; !ok && bodySchema.Extensions.ForEach {
+				hclSchema.Attributes = append(hclSchema.Attributes, hcl.AttributeSchema{Name: "for_each"})
+			}
+		}
 		bContent, remainingBody, _ := body.PartialContent(hclSchema)
 
 		content.Attributes = bContent.Attributes
